@@ -100,6 +100,7 @@ type Interp struct {
 	FPContracts bool
 	fpInt    map[*Term]*Term
 	fpDiv    map[*Term]map[uint64]*Term
+	gsm7Text map[*Object]view
 	atoiMap  map[*Term][]*Term
 	fmtTimeVals map[*Object]*Term
 	md5Keys  map[string]int
